@@ -188,12 +188,12 @@ template<int DD> void history_t(Case& c) {
 			case 13: if constexpr(DD >= 1) { if(!A.a) break; opk = std::string("assign-from-other-element-type"); Model nm = fresh(e); if(nm.n() == 0) break; opk += (A.m.ext == e ? "(same-extents)" : (A.m.n() == nm.n() ? "(same-count)" : "(other-extents)")); d << opk << "(" << a << "," << estr() << ")"; cur_op = d.str(); op(opk); softcfg().opk = opk;
 				OArr O(make_extensions<D>(e)); { Other* p = O.data_elements(); for(L k2 = 0; k2 < nm.n(); ++k2) p[k2] = mko(nm.ids[std::size_t(k2)]); } *A.a = O; A.m = nm; had_assign_over_state = true; break; } break;
 			case 14: if constexpr(DD >= 1) { if(!A.a || D == 0) break; c06 = true; bool fill = g.chance(1, 2); bool rv = !fill && g.chance(1, 4); opk = rv ? "reextent(&&)" : (fill ? "reextent(x,v)" : "reextent(x)");
-				std::vector<L> ob(std::size_t(D), 0); if(A.m.n() > 0) { if(A.m.base_known) ob = A.m.base; else { ob.clear(); std::apply([&](auto const&... x) { (ob.push_back(L(x.first())), ...); }, A.a->extensions().base()); } } bool zb = true; for(L x : ob) zb &= (x == 0); bool const same = (A.m.ext == e) && zb;  // the requested extensions are 0-based
+				std::vector<L> ob(std::size_t(D), 0); if(A.m.n() > 0) { if(A.m.base_known) ob = A.m.base; else { ob.clear(); std::apply([&](auto const&... x) { (ob.push_back(L(x.first())), ...); }, A.a->extensions().base()); } } std::vector<L> nb(std::size_t(D), 0); if(g.chance(1, 3)) { for(auto& x : nb) x = g.in(-3, 6); count("reextent-to-re-based-extensions"); } bool const same = (A.m.ext == e) && (ob == nb);  // the requested extensions start at nb (one time in three not at 0)
 				char const* cls = same ? "same" : (A.m.n() == 0 ? "from-empty" : (Model{e, {}}.n() == 0 ? "to-empty" : "other")); d << opk << "(" << a << "," << join(A.m.ext, "x") << "->" << estr() << ")"; cur_op = d.str(); op(opk + ":" + cls); softcfg().opk = opk;
 				long fid = fill ? next_id++ : 0; Model nm = filled(e, fid); std::vector<char> isnew(std::size_t(nm.n()), 1);
-				if(A.m.n() > 0 && nm.n() > 0) { MV om = MV::root(A.m.ext), nn = MV::root(e); std::vector<L> ix; for(L k = 0; k < nm.n(); ++k) { nn.unlin(k, ix); bool in = true; std::vector<L> ox = ix; for(int q = 0; q < D; ++q) { ox[std::size_t(q)] -= ob[std::size_t(q)]; in &= ox[std::size_t(q)] >= 0 && ox[std::size_t(q)] < A.m.ext[std::size_t(q)]; } if(in) { ix = ox; nm.ids[std::size_t(k)] = A.m.ids[std::size_t(om.lin(ix))]; isnew[std::size_t(k)] = 0; } } }
+				if(A.m.n() > 0 && nm.n() > 0) { MV om = MV::root(A.m.ext), nn = MV::root(e); std::vector<L> ix; for(L k = 0; k < nm.n(); ++k) { nn.unlin(k, ix); bool in = true; std::vector<L> ox = ix; for(int q = 0; q < D; ++q) { ox[std::size_t(q)] += nb[std::size_t(q)] - ob[std::size_t(q)]; in &= ox[std::size_t(q)] >= 0 && ox[std::size_t(q)] < A.m.ext[std::size_t(q)]; } if(in) { ix = ox; nm.ids[std::size_t(k)] = A.m.ids[std::size_t(om.lin(ix))]; isnew[std::size_t(k)] = 0; } } }
 				Elem const* before = A.a->data_elements(); bool const noop = same;
-				if(rv) { std::move(*A.a).reextent(make_extensions<D>(e)); } else if(fill) { A.a->reextent(make_extensions<D>(e), mk(fid)); } else { A.a->reextent(make_extensions<D>(e)); }
+				if(rv) { std::move(*A.a).reextent(make_extensions<D>(nb, e)); } else if(fill) { A.a->reextent(make_extensions<D>(nb, e), mk(fid)); } else { A.a->reextent(make_extensions<D>(nb, e)); }
 				if(same && A.a->data_elements() != before) V("C06:" + opk + ":noop-reallocated", "reextent to the current extents changed data_elements()");
 				(void)noop;
 				if(rv && !same) { nm = filled(e, 0); nm.unspec = TRIVIAL;  // the rvalue overload discards the contents by design: the elements are value-initialised (model id 0) or, for trivial types, left unwritten
@@ -201,7 +201,7 @@ template<int DD> void history_t(Case& c) {
 				else if(!fill && TRIVIAL && !same && nm.n() > 0) {  // new elements of a trivially default-constructible type are unspecified — and must not have been written (C08)
 					Elem const* p = A.a->data_elements(); bool wrote = false; for(L k = 0; k < nm.n(); ++k) if(isnew[std::size_t(k)]) { if(L(tuple_to_vec(A.a->sizes()) == e) && !is_poison(p[k])) wrote = true; nm.ids[std::size_t(k)] = id_of(p[k]); } count("poison_checks");
 					if(wrote) V("C08:reextent(x):wrote-trivial-elements", "reextent without a fill value wrote to new elements of a trivially default-constructible type"); }
-				A.m = nm; A.m.base.assign(std::size_t(D), 0); A.m.base_known = (nm.n() > 0); break; } break;
+				A.m = nm; A.m.base = nb; A.m.base_known = (nm.n() > 0); break; } break;
 			case 15: if constexpr(DD >= 1) { if(!A.a) break; c06 = true; bool il = g.chance(1, 2); opk = il ? "assign={}" : "clear"; d << opk << "(" << a << ")"; cur_op = d.str(); op(opk); softcfg().opk = opk; if(il) *A.a = {}; else A.a->clear(); A.m = empty_model(); if(D == 0) { A.m.unspec = true; A.m.ids = {0}; } break; } break;
 			case 16: { if(!A.a || D == 0 || A.m.n() == 0) break; c06 = true; std::vector<L> ne = A.m.ext; std::size_t i = std::size_t(g.below(D)), j = std::size_t(g.below(D)); std::swap(ne[i], ne[j]); if(D >= 2 && g.chance(1, 2)) { L nn = A.m.n(); ne.assign(std::size_t(D), 1); ne[std::size_t(g.below(D))] = nn; }
 				opk = "reshape"; d << opk << "(" << a << "," << join(A.m.ext, "x") << "->" << join(ne, "x") << ")"; cur_op = d.str(); op(opk); softcfg().opk = opk; Elem const* before = A.a->data_elements(); A.a->reshape(make_extensions<D>(ne)); if(A.a->data_elements() != before) V("C06:reshape:reallocated", "reshape changed data_elements()"); A.m.ext = ne; A.m.base.assign(std::size_t(D), 0); A.m.base_known = true; break; }
